@@ -1203,3 +1203,15 @@ def b_numeral_strings(tier, rnd):
         cases.append((s,))
     return {"rule": "every string of length <= 5 (thorough: 6) over {#,b,I,v,V,m,7} + documented numerals",
             "exhaustive_upto": 5, "cases": cases}
+
+
+@battery("nc_merge")
+def b_nc_merge(tier, rnd):
+    from mingus.containers.note_container import NoteContainer
+    sets = [[], ["C"], ["A"], ["C", "E", "G"], ["E", "G"], [["C", 2], ["C", 6]], ["B#", "Db"], ["C", "E", "G", "B", "D"]]
+    cases = []
+    for a in sets:
+        for b in sets:
+            cases.append((NoteContainer(list(a)), NoteContainer(list(b))))
+    return {"rule": "8 x 8 ordered pairs of containers holding 0..5 notes (empty receiver, empty argument, overlapping and "
+                    "disjoint pitch sets, enharmonic spellings)", "cases": cases}
